@@ -24,6 +24,8 @@ structure Lim where
   magic : Nat
   /-- `kMaxPlausibleEpochMs` -/
   maxPlausible : Int
+  /-- last whole millisecond a `system_clock::time_point` can hold -/
+  tpMax : Int
   /-- sanity bound on the snapshot entry count -/
   snapCountMax : Nat
 
@@ -39,6 +41,7 @@ def Lim.gen : Lim where
   ldMax := Gen.Kv.loadTotalLenMax
   magic := Gen.Kv.magicDefault
   maxPlausible := Gen.Kv.maxPlausibleEpochMs
+  tpMax := Gen.Kv.timePointMaxMs
   snapCountMax := Gen.Kv.snapCountMax
 
 /-- What the proofs need from the limits: everything the API admits is re-admitted by `load`. -/
@@ -52,6 +55,8 @@ structure Lim.OK (l : Lim) : Prop where
   magic : l.magic < 2 ^ 32
   plaus : l.maxPlausible < 2 ^ 63
   plausPos : 1 ≤ l.maxPlausible
+  /-- every plausible expiry is representable: `fromEpochMs` cannot overflow on a value `load` accepts -/
+  rep : l.maxPlausible ≤ l.tpMax
   count : l.snapCountMax < 2 ^ 32
 
 /-- op letters `'S' 'D' 'E' 'X'` -/
